@@ -35,7 +35,7 @@ func runC10(rt *rapid.T, st *stats.Collector) {
 		comp:      compModes[rapid.SampledFrom([]int{0, 0, 2, 3}).Draw(rt, "compression")],
 		telemetry: rapid.Bool().Draw(rt, "telemetry"),
 		rounds:    rapid.IntRange(1, 3).Draw(rt, "rounds"),
-		readTO:    rapid.SampledFrom([]time.Duration{0, 50 * time.Millisecond}).Draw(rt, "read-timeout"),
+		readTO:    rapid.SampledFrom([]time.Duration{0, 0, 50 * time.Millisecond, 50 * time.Millisecond, ch.NoTimeout}).Draw(rt, "read-timeout"),
 		prior:     rapid.SampledFrom([]int{0, 0, 0, 1, 2}).Draw(rt, "earlier-exception-queries"),
 	}
 	effRead := sc.readTO
@@ -43,6 +43,12 @@ func runC10(rt *rapid.T, st *stats.Collector) {
 		effRead = ch.DefaultReadTimeout
 	}
 	kind := rapid.SampledFrom([]string{"cancel", "deadline", "cancel-under-far-deadline"}).Draw(rt, "cancel-kind")
+	if sc.readTO == ch.NoTimeout {
+		// Without a read timeout only the context's deadline bounds a read (the statement's
+		// "read timeout" is then that deadline): the deadline kind is the one that applies.
+		kind, effRead = "deadline", 0
+		st.Label("read-timeout:none")
+	}
 	cancelStep := rapid.IntRange(0, 80).Draw(rt, "cancel-at-step")
 	g := newGatedRun(rt, sc, saneSteps)
 	defer g.cleanup()
